@@ -1,1 +1,152 @@
-/-! C14 — property theorems (placeholder until the model exists). -/
+import EupsModel.Lemmas.Remove
+/-! C14 — remove deletes exactly what was asked and never something still needed.
+Property theorems only (model: `Model/Remove.lean`, lemmas: `Lemmas/Remove.lean`). -/
+namespace EupsModel.C14
+open EupsModel EupsModel.Deps EupsModel.Remove
+
+variable (s : State) (uses : UsesOutcome) (name ver : Str) (recursive check force : Bool) (dn : Option Str)
+
+/-- **Refusal changes nothing.**  Whatever the outcome other than success — refusal because a product is in
+use, an unknown product, a failed listing — the state is the one before the command: collection precedes
+destruction. -/
+theorem C14_refuses (h : (removeWith s uses name ver recursive check force dn).1 ≠ .ok) :
+    (removeWith s uses name ver recursive check force dn).2.1 = s := by
+  unfold removeWith at h ⊢
+  cases check with
+  | false =>
+    simp only [Bool.false_eq_true, if_false] at h ⊢
+    split <;> simp_all
+  | true =>
+    simp only [if_true] at h ⊢
+    split
+    · rfl
+    · rfl
+    · split <;> simp_all
+
+/-- **Exactly what was collected.**  After a successful `remove` the declarations, tags and directories are
+those of before minus the ones of the removed products `R`: every declaration, tag and directory outside
+`R` is untouched, and those of `R` are gone. -/
+theorem C14_exact (s' : State) (R : List Prod)
+    (h : removeWith s uses name ver recursive check force dn = (.ok, s', R)) :
+    s'.decls = s.decls.filter (fun d => !removed R d.name d.ver) ∧
+    s'.tags = s.tags.filter (fun t => !removed R t.1 t.2.2) ∧
+    s'.dirs = s.dirs.filter (fun d => !removed R d.1 d.2) := by
+  have key : ∀ sb, (match collect s.db sb force dn (name, ver) s.removeFuel name (some ver) recursive with
+      | .error e => (.failed e, s, [])
+      | .ok l => (Remove.Outcome.ok, destroy s (uniqProds l), uniqProds l)) = (Remove.Outcome.ok, s', R) →
+      s' = destroy s R := by
+    intro sb hk
+    split at hk
+    · simp at hk
+    · simp only [Prod.mk.injEq] at hk; obtain ⟨_, h2, h3⟩ := hk; subst h3; exact h2.symm
+  have : s' = destroy s R := by
+    unfold removeWith at h
+    cases check with
+    | false => simp only [Bool.false_eq_true, if_false] at h; exact key _ h
+    | true =>
+      simp only [if_true] at h
+      split at h
+      · simp at h
+      · simp at h
+      · exact key _ h
+  subst this
+  exact ⟨rfl, rfl, rfl⟩
+
+/-- Without `--recursive` the removed set is the requested product alone (or nothing, for the default product). -/
+theorem C14_exact_nonrecursive (s' : State) (R : List Prod)
+    (h : removeWith s uses name ver false check force dn = (.ok, s', R)) :
+    R = [⟨name, some ver, true⟩] ∨ (R = [] ∧ dn = some name) := by
+  have key : ∀ sb, (match collect s.db sb force dn (name, ver) s.removeFuel name (some ver) false with
+      | .error e => (.failed e, s, [])
+      | .ok l => (Remove.Outcome.ok, destroy s (uniqProds l), uniqProds l)) = (Remove.Outcome.ok, s', R) →
+      R = [⟨name, some ver, true⟩] ∨ (R = [] ∧ dn = some name) := by
+    intro sb hk
+    split at hk
+    · simp at hk
+    · rename_i l hl
+      simp only [Prod.mk.injEq] at hk; obtain ⟨_, _, h3⟩ := hk; subst h3
+      rcases collect_nonrecursive _ _ _ _ _ _ _ _ _ hl with ⟨rfl, hd⟩ | ⟨p, hp, rfl⟩
+      · right; exact ⟨by simp [uniqProds, Topo.dedup], hd⟩
+      · left
+        have : p = ⟨name, some ver, true⟩ := by
+          simp only [Db.find] at hp
+          split at hp <;> simp_all
+        subst this; simp [uniqProds, Topo.dedup]
+  unfold removeWith at h
+  cases check with
+  | false => simp only [Bool.false_eq_true, if_false] at h; exact key _ h
+  | true =>
+    simp only [if_true] at h
+    split at h
+    · simp at h
+    · simp at h
+    · exact key _ h
+
+/-- **Never something still needed.**  With the in-use check on and force off, a successful `remove` deletes
+only products whose every user (as `uses` reports them) is the requested product itself — which is removed too. -/
+theorem C14_never_still_needed (sb : SetupBy) (s' : State) (R : List Prod)
+    (h : removeWith s (.ok sb) name ver recursive true false dn = (.ok, s', R)) :
+    ∀ p ∈ R, ∀ u ∈ users sb p.name p.ver, u.name = name ∧ u.ver = ver := by
+  unfold removeWith at h
+  simp only [if_true] at h
+  split at h
+  · simp at h
+  · rename_i l hl
+    simp only [Prod.mk.injEq] at h; obtain ⟨_, _, h3⟩ := h; subst h3
+    intro p hp u hu
+    have hp' := (mem_uniqProds l p).mp hp
+    have := collect_checked _ _ _ _ _ _ _ _ _ hl p hp'
+    simp only [inUse, usedBy, Bool.not_eq_false', List.isEmpty_iff, List.filter_eq_nil_iff] at this
+    have := this u hu
+    simpa using this
+
+/-- `--noCheck`: the command never refuses. -/
+theorem C14_noCheck : (removeWith s uses name ver recursive false force dn).1 ≠ .failed .refused := by
+  unfold removeWith
+  simp only [Bool.false_eq_true, if_false]
+  split
+  · rename_i e he
+    intro h; simp only at h; injection h with h; subst h
+    exact collect_not_refused _ none force dn _ (Or.inl rfl) _ _ _ _ he
+  · simp
+
+/-- `--force`: the command never refuses. -/
+theorem C14_force : (removeWith s uses name ver recursive check true dn).1 ≠ .failed .refused := by
+  have key : ∀ sb, (match collect s.db sb true dn (name, ver) s.removeFuel name (some ver) recursive with
+      | .error e => (Remove.Outcome.failed e, s, ([] : List Prod))
+      | .ok l => (Remove.Outcome.ok, destroy s (uniqProds l), uniqProds l)).1 ≠ .failed .refused := by
+    intro sb
+    split
+    · rename_i e he
+      intro h; simp only at h; injection h with h; subst h
+      exact collect_not_refused _ sb true dn _ (Or.inr rfl) _ _ _ _ he
+    · simp
+  unfold removeWith
+  cases check with
+  | false => simp only [Bool.false_eq_true, if_false]; exact key _
+  | true =>
+    simp only [if_true]
+    split
+    · simp
+    · simp
+    · exact key _
+
+/-! Non-vacuity: `app 1 → lib 1 ← other 1`.  Removing `app` recursively is refused (lib is in use by `other`),
+succeeds with `--noCheck` taking `lib` along, and a plain removal of `app` leaves everything else alone. -/
+section Example
+def a : Str := [97]
+def l : Str := [108]
+def o : Str := [111]
+def v1 : Str := [49]
+def ex : State :=
+  { decls := [⟨a, v1, [⟨false, false, l, none, false⟩]⟩, ⟨l, v1, []⟩, ⟨o, v1, [⟨false, false, l, none, false⟩]⟩]
+    tags := [(a, currentTag, v1), (l, currentTag, v1), (o, currentTag, v1)]
+    dirs := [(a, v1), (l, v1), (o, v1)] }
+
+example : (remove ex a v1 true true false none).1 = .failed .refused := by decide
+example : (remove ex a v1 true true false none).2.1 = ex := by decide
+example : (remove ex a v1 true false false none).2.2 = [⟨a, some v1, true⟩, ⟨l, some v1, true⟩] := by decide
+example : (remove ex a v1 false true false none).2.1.decls.map (·.name) = [l, o] := by decide
+end Example
+
+end EupsModel.C14
